@@ -18,6 +18,7 @@
 //                   ok <shape> devmix     Node accepts (error due at evaluation), Tensor rejects: devices mixed
 //                   ok <shape> tensor-err Node accepts, Tensor rejects
 //                   ok <shape> tensor-shape <shape>
+//                   ok <shape> tensor-accepts-devmix   both accept although the operands live on different devices
 #include "common.h"
 #include <cmath>
 #include <cstring>
@@ -211,7 +212,10 @@ std::vector<V> apply(World &w, const std::string &f, const std::vector<std::stri
   if (f == "elu") { need(2); return one(F::elu(X(0), Fl(1))); }
   if (f == "selu2") { need(3); return one(F::selu(X(0), Fl(1), Fl(2))); }
   if (f == "input") { need(2); return one(F::input<V>(parse_shape(a[0]), parse_data(a[1]), dev)); }
-  if (f == "copy") { need(2); return one(F::copy(X(0), w.device(w.dev_index(a[1])))); }
+  if (f == "copy") {
+    if (n == 1) return one(F::copy(X(0)));      // device argument omitted: the default device
+    need(2); return one(F::copy(X(0), w.device(w.dev_index(a[1]))));
+  }
   if (f == "pick") { need(3); return one(F::pick(X(0), parse_ids(a[1]), U(2))); }
   if (f == "slice") { need(4); return one(F::slice(X(0), U(1), U(2), U(3))); }
   if (f == "split") { need(3); return F::split(X(0), U(1), U(2)); }
@@ -309,6 +313,7 @@ std::string do_let(World &w, const std::string &name, const std::string &f, cons
     if (r->random) random = true;
   }
   if (f == "copy" && a.size() == 2) { dev = w.dev_index(a[1]); mixed_dev = false; }
+  if (f == "copy" && a.size() == 1) { dev = w.curdev; mixed_dev = false; }
   if (f == "input" || f == "constant" || f == "zeros" || f == "ones" || f == "identity" || f.compare(0, 8, "random::") == 0) dev = w.curdev;
   Device::set_default(w.device(w.curdev));
   Graph::set_default(w.graph(w.curgraph));
@@ -340,6 +345,7 @@ std::string do_let(World &w, const std::string &name, const std::string &f, cons
     bool same = ns.size() == ts.size();
     for (std::size_t i = 0; same && i < ns.size(); ++i) same = ns[i] == ts[i];
     if (!same) out += " tensor-shape " + shapes_str(ts, isvec);
+    else if (mixed_dev) out += " tensor-accepts-devmix";   // operands on different devices, yet accepted
   }
   w.vars[name] = r;
   return out;
